@@ -183,3 +183,54 @@ func Dump(v reflect.Value) interface{} {
 	}
 	return fmt.Sprint(v.Interface())
 }
+
+// KnownClassC04 names the known-finding class of C04 a value belongs to, decided on the value
+// alone ("" = none): a note Date with a sub-second part, a non-nil empty ChangesetDiscussion.
+func KnownClassC04(v reflect.Value) string {
+	date, disc := false, false
+	var walk func(v reflect.Value)
+	walk = func(v reflect.Value) {
+		t := v.Type()
+		if t == dateType {
+			if v.Interface().(osm.Date).Nanosecond() != 0 {
+				date = true
+			}
+			return
+		}
+		if t == timeType {
+			return
+		}
+		switch v.Kind() {
+		case reflect.Ptr:
+			if !v.IsNil() {
+				if d, ok := v.Interface().(*osm.ChangesetDiscussion); ok && len(d.Comments) == 0 {
+					disc = true
+				}
+				walk(v.Elem())
+			}
+		case reflect.Slice:
+			for i := 0; i < v.Len(); i++ {
+				walk(v.Index(i))
+			}
+		case reflect.Struct:
+			for i := 0; i < t.NumField(); i++ {
+				f := t.Field(i)
+				if f.Name == "XMLName" || (!f.IsExported() && !f.Anonymous) {
+					continue
+				}
+				if tag, ok := f.Tag.Lookup("xml"); ok && tag == "-" {
+					continue
+				}
+				walk(v.Field(i))
+			}
+		}
+	}
+	walk(v)
+	switch {
+	case date:
+		return "note-date-subsecond"
+	case disc:
+		return "changeset-empty-discussion"
+	}
+	return ""
+}
